@@ -76,6 +76,7 @@ type pathResult struct {
 	notes   []string
 	sample  []inputRec
 	nsym    int
+	ninputs int
 	steps   int64
 	tainted bool
 	wall    float64
@@ -97,20 +98,21 @@ type Harness struct {
 }
 
 type HarnessResult struct {
-	Harness     string         `json:"harness"`
-	Paths       map[string]int `json:"paths"`
-	Covers      map[string]int `json:"covers"`
-	Failures    []*Failure     `json:"failures,omitempty"`
-	Incomplete  []string       `json:"incomplete,omitempty"`
-	Samples     []interface{}  `json:"samples,omitempty"`
-	Notes       []string       `json:"notes,omitempty"`
-	NontrivPath int            `json:"nontrivial_paths"`
-	Steps       int64          `json:"instructions"`
-	Truncated   bool           `json:"truncated"`
-	WallS       float64        `json:"wall_s"`
-	failSeen    map[string]int
-	incSeen     map[string]int
-	rawSamples  [][]inputRec
+	Harness       string         `json:"harness"`
+	Paths         map[string]int `json:"paths"`
+	Covers        map[string]int `json:"covers"`
+	Failures      []*Failure     `json:"failures,omitempty"`
+	Incomplete    []string       `json:"incomplete,omitempty"`
+	Samples       []interface{}  `json:"samples,omitempty"`
+	Notes         []string       `json:"notes,omitempty"`
+	NontrivPath   int            `json:"nontrivial_paths"`
+	Steps         int64          `json:"instructions"`
+	Truncated     bool           `json:"truncated"`
+	WallS         float64        `json:"wall_s"`
+	failSeen      map[string]int
+	incSeen       map[string]int
+	rawSamples    [][]inputRec
+	sampledCovers map[string]bool
 }
 
 type workItem struct {
@@ -569,6 +571,7 @@ func (w *Worker) runPath(h *Harness, prefix []dec) (res pathResult) {
 		}
 		res.notes = ex.notes
 		res.nsym = ex.nsym
+		res.ninputs = len(ex.inputs)
 		res.steps = i.steps
 		res.tainted = ex.tainted
 		switch r := r.(type) {
@@ -609,7 +612,7 @@ func (w *Worker) runPath(h *Harness, prefix []dec) (res pathResult) {
 		default:
 			res.kind, res.msg = "unsupported", fmt.Sprintf("internal: %v", r)
 		}
-		if res.kind == "pass" && len(ex.inputs) > 0 && w.ex.wantSample() {
+		if res.kind == "pass" && len(ex.inputs) > 0 && w.ex.wantSample(ex.covers) {
 			if m, v := i.model(); v == Sat {
 				res.sample = m
 			}
@@ -680,10 +683,24 @@ func (e *Explorer) push(it workItem) {
 	e.cond.Signal()
 }
 
-func (e *Explorer) wantSample() bool {
+// wantSample: the first few passing paths, and the first passing path that
+// witnesses each cover label (at most 8 per harness), get a model: they are
+// the sample paths replayed natively.
+func (e *Explorer) wantSample(covers map[string]bool) bool {
 	e.mu.Lock()
 	defer e.mu.Unlock()
-	return len(e.res.Samples) < 4
+	if len(e.res.Samples) < 4 {
+		return true
+	}
+	if len(e.res.rawSamples) >= 8 {
+		return false
+	}
+	for c := range covers {
+		if !e.res.sampledCovers[c] {
+			return true
+		}
+	}
+	return false
 }
 
 func (e *Explorer) pop() (workItem, bool) {
@@ -725,7 +742,7 @@ func (e *Explorer) done(r pathResult) {
 	res.Paths[r.kind]++
 	res.Steps += r.steps
 	e.pathCount++
-	if r.nsym > 0 && (r.kind == "pass" || r.kind == "fail") {
+	if (r.nsym > 0 || r.ninputs > 0) && (r.kind == "pass" || r.kind == "fail") {
 		res.NontrivPath++
 	}
 	for c := range r.covers {
@@ -736,8 +753,19 @@ func (e *Explorer) done(r pathResult) {
 			res.Notes = append(res.Notes, n)
 		}
 	}
-	if r.sample != nil && len(res.rawSamples) < 2 {
-		res.rawSamples = append(res.rawSamples, r.sample)
+	if r.sample != nil {
+		fresh := false
+		for c := range r.covers {
+			if !res.sampledCovers[c] {
+				fresh = true
+			}
+		}
+		if len(res.rawSamples) < 2 || (fresh && len(res.rawSamples) < 8) {
+			res.rawSamples = append(res.rawSamples, r.sample)
+			for c := range r.covers {
+				res.sampledCovers[c] = true
+			}
+		}
 	}
 	if r.sample != nil && len(res.Samples) < 4 {
 		res.Samples = append(res.Samples, map[string]interface{}{"path": "pass", "inputs": renderInputs(r.sample)})
@@ -805,7 +833,7 @@ func renderInputs(in []inputRec) []string {
 func (e *Explorer) Explore(h *Harness, timeout time.Duration) *HarnessResult {
 	t0 := time.Now()
 	e.h = h
-	e.res = &HarnessResult{Harness: h.ID, Paths: map[string]int{}, Covers: map[string]int{}, failSeen: map[string]int{}, incSeen: map[string]int{}}
+	e.res = &HarnessResult{Harness: h.ID, Paths: map[string]int{}, Covers: map[string]int{}, failSeen: map[string]int{}, incSeen: map[string]int{}, sampledCovers: map[string]bool{}}
 	e.queue = []workItem{{}}
 	e.active = 0
 	e.stop = false
